@@ -14,7 +14,7 @@ FC = "pasfmt::FormattingConfig"
 REPO = os.environ.get("PASFMT_REPO", "/repo")
 
 
-INT_WIDTH = {"u8": 8, "i8": 8, "u16": 16, "i16": 16, "u32": 32, "i32": 32, "u64": 64, "i64": 64, "usize": 64, "isize": 64, "u128": 128, "i128": 128}
+INT_WIDTH = {"bool": 1, "char": 32, "u8": 8, "i8": 8, "u16": 16, "i16": 16, "u32": 32, "i32": 32, "u64": 64, "i64": 64, "usize": 64, "isize": 64, "u128": 128, "i128": 128}
 CONFIG_PATH_FILES = ("front-end/src/lib.rs", "front-end/src/main.rs", "orchestrator/src/command_line.rs", "orchestrator/src/formatting_orchestrator.rs")
 
 
@@ -37,7 +37,9 @@ def config_values_are_not_narrowed(prog, rep, R):
             n += 1
             ws, wd = INT_WIDTH.get(src), INT_WIDTH.get(dst)
             signed_change = src[:1] != dst[:1] and src[:1] in "ui" and dst[:1] in "ui"
-            if ws is None or wd is None or wd < ws or (signed_change and wd <= ws):
+            if ws is None or wd is None:
+                continue            # not an integer-to-integer narrowing the rule knows (enum discriminant read, ..)
+            if wd < ws or (signed_change and wd <= ws and src not in ("bool", "char")):
                 bad.append("%s:%s `%s as %s`" % (short(b.npath), s2.get("line"), src, dst))
     rep.check(not bad, R, "no-narrowing-cast-on-the-configuration-path", "an integer is narrowed on the configuration path: an out-of-range value (256 for a u8 option) is then accepted and wraps "
               "instead of being rejected: %s" % bad[:3], instance={"int_casts": n, "narrowing": bad[:5]})
